@@ -4,7 +4,7 @@ import ScionVerif.Model.StdPath
 
 `OneHopV` is the structured content of a `OneHopPathView` (all 256 bits: info field with its reserved
 byte, two hop fields with all flag bits); `OneHopM` mirrors `OneHopPath`.  As in `Model/StdPath.lean`
-a mutating operation returns the state after the call together with the result.  Core-only.
+a mutating operation is given as a statement sequence (`*Imp`, run by the driver) and as a summary.  Core-only.
 -/
 namespace ScionVerif.OneHop
 open ScionVerif.Generated.StdPath ScionVerif.StdPath
@@ -32,8 +32,30 @@ def ofBytes (b : Bytes) : Option (OneHopV × Bytes) :=
 inductive RevErr | secondHopNotSet
 deriving Repr, DecidableEq
 
-/-- `OneHopPathView::try_reverse` -/
+/-- the hop field the second AS fills in is the second one *in construction direction*: position 2 with
+CONS_DIR, position 1 once the path has been reversed (`/repo` 9957320 `fix: a reversed one-hop path must be
+reversible again`; before, position 2 was looked at regardless of the direction) -/
+def secondHopUnset (flags : Nat) (hop1 hop2 : HopF) : Bool :=
+  if consDir flags then hop2.consIn == 0 else hop1.consIn == 0
+
+/-- `OneHopPathView::try_reverse` (summary) -/
 def reverseView (v : OneHopV) : OneHopV × Except RevErr Unit :=
+  if secondHopUnset v.info.flags v.hop1 v.hop2 then (v, .error .secondHopNotSet) else
+  ({ info := v.info.toggle, hop1 := v.hop2, hop2 := v.hop1 }, .ok ())
+
+/-- `OneHopPathView::try_reverse`, statement by statement: the check, `std::mem::swap(hop1, hop2)`, the flag write -/
+def reverseViewImp : Imp OneHopV (Except RevErr Unit) (Except RevErr Unit) := do
+  let s ← Imp.get
+  if secondHopUnset s.info.flags s.hop1 s.hop2 then Imp.exit (.error .secondHopNotSet) else do
+  Imp.write fun s => { s with hop1 := s.hop2, hop2 := s.hop1 }
+  let flags := toggleCons (← Imp.get).info.flags
+  Imp.write fun s => { s with info := { s.info with flags := flags } }
+  pure (.ok ())
+
+def reverseViewImp.effects : List String := ["exit", "write:mut_hop_fields", "write:mem_swap", "write:info_field_mut"]
+
+/-- the check as it was before `/repo` 9957320 (kept for the witness of the repaired defect) -/
+def reverseViewPreFix (v : OneHopV) : OneHopV × Except RevErr Unit :=
   if v.hop2.consIn = 0 then (v, .error .secondHopNotSet) else
   ({ info := v.info.toggle, hop1 := v.hop2, hop2 := v.hop1 }, .ok ())
 
@@ -58,10 +80,20 @@ def fromView (v : OneHopV) : OneHopM := { info := v.info.toM, hop1 := v.hop1, ho
 /-- `encode_unchecked` (always `wire_valid`) -/
 def OneHopM.encode (m : OneHopM) : OneHopV := { info := m.info.toV, hop1 := m.hop1, hop2 := m.hop2 }
 
-/-- `OneHopPath::try_reverse` -/
+/-- `OneHopPath::try_reverse` (summary) -/
 def reverseModel (m : OneHopM) : OneHopM × Except RevErr Unit :=
-  if m.hop2.consIn = 0 then (m, .error .secondHopNotSet) else
+  if secondHopUnset m.info.flags m.hop1 m.hop2 then (m, .error .secondHopNotSet) else
   ({ info := m.info.toggle, hop1 := m.hop2, hop2 := m.hop1 }, .ok ())
+
+/-- `OneHopPath::try_reverse`, statement by statement: the check, `self.hops.swap(0, 1)`, `self.info.flags ^= CONS_DIR` -/
+def reverseModelImp : Imp OneHopM (Except RevErr Unit) (Except RevErr Unit) := do
+  let s ← Imp.get
+  if secondHopUnset s.info.flags s.hop1 s.hop2 then Imp.exit (.error .secondHopNotSet) else do
+  Imp.write fun s => { s with hop1 := s.hop2, hop2 := s.hop1 }
+  Imp.write fun s => { s with info := s.info.toggle }
+  pure (.ok ())
+
+def reverseModelImp.effects : List String := ["exit", "write:hops.swap", "write:info.flags"]
 
 /-- `OneHopPath::set_second_hop` -/
 def setSecondHopModel {K : Type} (mac : MacFn K) (m : OneHopM) (ingress : Nat) (key : K) (advanced : Bool) : OneHopM :=
@@ -71,7 +103,7 @@ def setSecondHopModel {K : Type} (mac : MacFn K) (m : OneHopM) (ingress : Nat) (
 
 /-- `OneHopPath::try_into_reversed_standard_path` (`DpPath::try_reverse` of a one-hop model) -/
 def toReversedStandard (m : OneHopM) : Except RevErr PathM :=
-  if m.hop2.consIn = 0 then .error .secondHopNotSet else
+  if secondHopUnset m.info.flags m.hop1 m.hop2 then .error .secondHopNotSet else
   .ok { currInf := 0, currHf := 0, segs := [{ info := m.info.toggle, hops := [m.hop2, m.hop1] }] }
 
 end ScionVerif.OneHop
